@@ -1,16 +1,19 @@
 import Arp.Lemmas.FracErr
 /-!
-# C20 — when does `as_fraction` compute the TRUE partial quotients?
+# C20 — `as_fraction` computes the TRUE partial quotients
 
-`asFraction_exact_partial`: for a canonical finite non-zero `x` of a well-formed format in
+`asFraction_exact`: for a canonical finite non-zero `x` of a well-formed format in
 nearest-even mode and `n ≥ 1`, if the exact continued fraction of `|x|` has at least `n + 2`
-terms and the denominator `Q` of its `(n+2)`-term convergent satisfies `Q²·ulp(x) ≤ 2^-8`
-**and `Q ≤ 2^emax`**, then `as_fraction(n)` returns the exact convergent `[a0; …, a(n−1)]`.
+terms and the denominator `Q` of its `(n+2)`-term convergent satisfies `Q²·ulp(x) ≤ 2^-8`,
+then `as_fraction(n)` returns the exact convergent `[a0; …, a(n−1)]` — in EVERY format.
 
-The extra hypothesis `Q ≤ 2^emax` (no iterate overflows) cannot be dropped: see
-`asFraction_exact_counterexample` (a format with two exponent bits).  It follows from the
-bound on `Q²·ulp` in every format with `p ≤ emax + 10` — all IEEE interchange formats —
-(`asFraction_exact`).
+The loop runs in the working format `wideSem x.sem` (`log2(p) + 2` more exponent bits), into
+which the operand is cast exactly; there `Q ≤ 2^emax_wide` follows from the bound on `Q²·ulp`
+(`den_le_pow_emax`), so no iterate overflows.  Before that repair the loop ran in the
+operand's own format and the statement failed in formats with a tiny exponent range
+(`(e, p) = (2, 16)`, `x = 59753·2^-15`, `n = 3`: the third iterate `4.66…` overflowed and the
+result was `1/1` instead of `9/5`); the `example` at the end of this file records that the
+repaired model returns `9/5` there.
 -/
 namespace Arp.C20
 open Arp Arp.SpecRound
@@ -18,19 +21,21 @@ open Arp Arp.SpecRound
 /-- the first computed partial quotient is always exact: `a0 = ⌊|x|⌋` -/
 theorem asFraction_first_quotient_exact (x : Flt) (hF : x.sem.WF) (hx : x.cat = .normal)
     (hc : x.Canonical) (rm : RM) :
-    fracQuot (Flt.one x.sem false) rm x 0 = ⌊|x.val|⌋₊ := by
+    fracQuot (Flt.one (wideSem x.sem) false) rm (x.cast (wideSem x.sem)) 0 = ⌊|x.val|⌋₊ := by
   have h := sgnN_of_normal hx hc
-  rw [fracQuot_zero, trunc_quot hF h, h.abs_val]
+  obtain ⟨hy, hym⟩ := cast_wide_sgnN x hF hx hc
+  rw [fracQuot_zero, trunc_quot (wideSem_WF hF) hy, hym, h.abs_val]
 
 /-- hence `as_fraction(1)` (and `as_fraction(0)`) is always `(⌊|x|⌋, 1)` -/
 theorem asFraction_one_exact (x : Flt) (hF : x.sem.WF) (hx : x.cat = .normal) (hc : x.Canonical) :
     x.asFraction 1 = (⌊|x.val|⌋₊, 1) := by
   rw [asFraction_convergent x 1 hx (le_refl _), fracLoop_eq]
-  have h := sgnN_of_normal hx hc
-  have : (List.range (max 1 2)).map (fracQuot (Flt.one x.sem false) x.sem.rm x)
-      = fracQuot (Flt.one x.sem false) x.sem.rm x 0
-        :: (List.range 1).map (fracQuot (Flt.one x.sem false) x.sem.rm
-            ((Flt.one x.sem false).div (x.sub x.trunc))) :=
+  have : (List.range (max 1 2)).map
+        (fracQuot (Flt.one (wideSem x.sem) false) x.sem.rm (x.cast (wideSem x.sem)))
+      = fracQuot (Flt.one (wideSem x.sem) false) x.sem.rm (x.cast (wideSem x.sem)) 0
+        :: (List.range 1).map (fracQuot (Flt.one (wideSem x.sem) false) x.sem.rm
+            ((Flt.one (wideSem x.sem) false).div
+              ((x.cast (wideSem x.sem)).sub (x.cast (wideSem x.sem)).trunc))) :=
     map_fracQuot_succ _ _ _ 1
   rw [this, asFraction_first_quotient_exact x hF hx hc]
   simp [stdConv, stdStep, stdInit]
@@ -56,68 +61,78 @@ theorem step_next_iterate {W : Sem} (hW : W.WF) (hrm : W.rm = .nte) {sg : Bool} 
   obtain ⟨-, hs, -, he⟩ := frac_step hW hrm h a h1 h2 h3
   exact ⟨hs, he⟩
 
-/-- **the stated bound forces the true partial quotients**, provided no iterate overflows
-    (`Q ≤ 2^emax`) -/
+/-- **the stated bound forces the true partial quotients**, provided no iterate overflows in
+    the working format (`Q ≤ 2^emax_wide`; always true, see `den_le_pow_emax`) -/
 theorem quotients_exact (x : Flt) (n : Nat) (hF : x.sem.WF) (hx : x.cat = .normal)
     (hc : x.Canonical) (hrm : x.sem.rm = .nte) (hn : 1 ≤ n)
     (hterms : (cfTerms |x.val| (n + 2)).length = n + 2)
     (hQ : ((stdConv (cfTerms |x.val| (n + 2))).2 : ℚ) ^ 2 * x.sem.ulp x.exp ≤ (2:ℚ) ^ (-8 : Int))
-    (hrange : ((stdConv (cfTerms |x.val| (n + 2))).2 : ℚ) ≤ (2:ℚ) ^ x.sem.emax) :
-    (fracLoop (Flt.one x.sem false) x.sem.rm (max n 2) x []).take n = cfTerms |x.val| n := by
+    (hrange : ((stdConv (cfTerms |x.val| (n + 2))).2 : ℚ) ≤ (2:ℚ) ^ (wideSem x.sem).emax) :
+    (fracLoop (Flt.one (wideSem x.sem) false) x.sem.rm (max n 2) (x.cast (wideSem x.sem)) []).take n
+      = cfTerms |x.val| n := by
   have h := sgnN_of_normal hx hc
+  obtain ⟨hy, hym⟩ := cast_wide_sgnN x hF hx hc
+  have hWw : (wideSem x.sem).WF := wideSem_WF hF
+  have hrmw : (wideSem x.sem).rm = .nte := hrm
   rw [fracLoop_eq, List.reverse_nil, List.nil_append, ← List.map_take, List.take_range,
     Nat.min_eq_left (le_max_left n 2)]
-  rw [h.abs_val] at hterms hQ hrange ⊢
+  rw [h.abs_val, ← hym] at hterms hQ hrange ⊢
   simp only [stdConv] at hQ hrange
-  set W := x.sem with hWdef
-  set u := (2:ℚ) ^ (-(W.p:Int)) with hu
+  set Ww := wideSem x.sem with hWwdef
+  set y := x.cast Ww with hydef
+  set u := (2:ℚ) ^ (-(Ww.p:Int)) with hu
   have hupos : 0 < u := by rw [hu]; positivity
-  have hulp := W.ulp_pos x.exp
-  obtain ⟨hf, hcons, hlen'⟩ := cfTerms_full x.mag n hterms
-  obtain ⟨hf0, hf1, hr1⟩ := frac_facts x.mag h.mag_pos.le hf
-  by_cases hbig : 1 ≤ x.mag
+  have hxu : y.mag * u < x.sem.ulp x.exp := by
+    have := mag_mul_u_lt (W := x.sem) h
+    rw [hym]; exact this
+  have h2u : 1 ≤ y.mag → 2 * u ≤ x.sem.ulp x.exp := fun hb => by
+    have := two_u_le_ulp (W := x.sem) hF h (hym ▸ hb)
+    exact this
+  obtain ⟨hf, hcons, hlen'⟩ := cfTerms_full y.mag n hterms
+  obtain ⟨hf0, hf1, hr1⟩ := frac_facts y.mag hy.mag_pos.le hf
+  by_cases hbig : 1 ≤ y.mag
   · -- |x| > 1 : the induction starts at the initial state
-    have hgt : 1 < x.mag := by
+    have hgt : 1 < y.mag := by
       rcases lt_or_eq_of_le hbig with h' | h'
       · exact h'
       · exfalso; apply hf; rw [← h']; simp
-    have hQpos : 1 ≤ ((cfTerms x.mag (n + 2)).foldl stdStep stdInit).2.1 :=
-      foldl_den_pos stdInit (by decide) x.mag hbig (n + 1)
-    have hQposq : (0:ℚ) < (((cfTerms x.mag (n + 2)).foldl stdStep stdInit).2.1 : ℚ) := by
+    have hQpos : 1 ≤ ((cfTerms y.mag (n + 2)).foldl stdStep stdInit).2.1 :=
+      foldl_den_pos stdInit (by decide) y.mag hbig (n + 1)
+    have hQposq : (0:ℚ) < (((cfTerms y.mag (n + 2)).foldl stdStep stdInit).2.1 : ℚ) := by
       exact_mod_cast hQpos
-    refine quot_agree hF hrm x.sign W.rm n x x.mag stdInit h hbig hgt hterms
+    refine quot_agree hWw hrmw x.sign x.sem.rm n y y.mag stdInit hy hbig hgt hterms
       (by rw [detSt_init]; norm_num) (by decide) ?_ hrange
     rw [sub_self, abs_zero, zero_add]
     apply budget_ok hQposq hQ
-    have hpot : pot ((stdStep stdInit ⌊x.mag⌋₊).2.1 : ℚ) ((stdStep stdInit ⌊x.mag⌋₊).2.2 : ℚ) = 2 := by
+    have hpot : pot ((stdStep stdInit ⌊y.mag⌋₊).2.1 : ℚ) ((stdStep stdInit ⌊y.mag⌋₊).2.2 : ℚ) = 2 := by
       simp only [stdStep, stdInit, pot]; norm_num
     rw [hpot]
-    have := two_u_le_ulp hF h hbig
+    have := h2u hbig
     linarith
   · -- |x| < 1 : a0 = 0, one manual step, then the induction from the state after `0`
-    have hlt : x.mag < 1 := not_le.mp hbig
-    have hfl : ⌊x.mag⌋₊ = 0 := Nat.floor_eq_zero.mpr hlt
+    have hlt : y.mag < 1 := not_le.mp hbig
+    have hfl : ⌊y.mag⌋₊ = 0 := Nat.floor_eq_zero.mpr hlt
     rw [hfl] at hf hcons hlen' hr1
     simp only [Nat.cast_zero, sub_zero] at hf hcons hlen' hr1
     obtain ⟨m, rfl⟩ : ∃ m, n = m + 1 := ⟨n - 1, by omega⟩
-    rw [map_fracQuot_succ, trunc_quot hF h, hfl, cfTerms_succ x.mag m (by rw [hfl]; simpa using hf), hfl]
+    rw [map_fracQuot_succ, trunc_quot hWw hy, hfl, cfTerms_succ y.mag m (by rw [hfl]; simpa using hf), hfl]
     simp only [Nat.cast_zero, sub_zero]
     congr 1
     cases m with
     | zero => rfl
     | succ k =>
-      set r1 := 1 / x.mag with hr1def
+      set r1 := 1 / y.mag with hr1def
       set st1 := stdStep stdInit 0 with hst1
       have hst1v : st1 = ((0, 1), (1, 0)) := by decide
       have hlen3 : (cfTerms r1 (k + 3)).length = k + 3 := hlen'
-      have hcons4 : cfTerms x.mag (k + 4) = 0 :: cfTerms r1 (k + 3) := hcons
-      have hQeq : (cfTerms x.mag (k + 4)).foldl stdStep stdInit
+      have hcons4 : cfTerms y.mag (k + 4) = 0 :: cfTerms r1 (k + 3) := hcons
+      have hQeq : (cfTerms y.mag (k + 4)).foldl stdStep stdInit
           = (cfTerms r1 (k + 3)).foldl stdStep st1 := by
         rw [hcons4, List.foldl_cons]
-      have hQ4 : (((cfTerms x.mag (k + 4)).foldl stdStep stdInit).2.1 : ℚ) ^ 2 * W.ulp x.exp
+      have hQ4 : (((cfTerms y.mag (k + 4)).foldl stdStep stdInit).2.1 : ℚ) ^ 2 * x.sem.ulp x.exp
           ≤ (2:ℚ) ^ (-8 : Int) := hQ
-      have hrange4 : (((cfTerms x.mag (k + 4)).foldl stdStep stdInit).2.1 : ℚ)
-          ≤ (2:ℚ) ^ W.emax := hrange
+      have hrange4 : (((cfTerms y.mag (k + 4)).foldl stdStep stdInit).2.1 : ℚ)
+          ≤ (2:ℚ) ^ Ww.emax := hrange
       rw [hQeq] at hQ4 hrange4
       have hq1nat : 1 ≤ st1.2.1 := by rw [hst1v]
       have hden := quot_succ_le_den st1 hq1nat r1 hr1 (k + 1) hlen3
@@ -128,70 +143,69 @@ theorem quotients_exact (x : Flt) (n : Nat) (hF : x.sem.WF) (hx : x.cat = .norma
         linarith
       have hr1hi : r1 < ⌊r1⌋₊ + 1 := Nat.lt_floor_add_one r1
       -- the float step
-      obtain ⟨-, hρ', hρ'1, herr⟩ := frac_step hF hrm h 0 (by simpa using h.mag_pos)
+      obtain ⟨-, hρ', hρ'1, herr⟩ := frac_step hWw hrmw hy 0 (by simpa using hy.mag_pos)
         (by simpa using hlt) (by simp only [Nat.cast_zero, sub_zero]; rw [← hr1def]; linarith)
       simp only [Nat.cast_zero, sub_zero] at herr
       rw [← hr1def] at herr
-      set ρ' := (Flt.one W false).div (x.sub x.trunc) with hρ'def
+      set ρ' := (Flt.one Ww false).div (y.sub y.trunc) with hρ'def
       have hdet1 : detSt st1 ^ 2 = 1 := by rw [hst1v]; decide
-      refine quot_agree hF hrm x.sign W.rm (k + 1) ρ' r1 st1 hρ' hρ'1 hr1 hlen3 hdet1
+      refine quot_agree hWw hrmw x.sign x.sem.rm (k + 1) ρ' r1 st1 hρ' hρ'1 hr1 hlen3 hdet1
         (by rw [hst1v]; decide) ?_ hrange4
       apply budget_ok hQposq hQ4
       -- the perturbation caused by the first reciprocal: |1/ρ' − x| ≤ u·x
       have hρ'pos : 0 < ρ'.mag := by linarith
       have hr1pos : 0 < r1 := by linarith
-      have hE1 : |mob st1 ρ'.mag - mob st1 r1| ≤ u * x.mag := by
+      have hE1 : |mob st1 ρ'.mag - mob st1 r1| ≤ u * y.mag := by
         rw [mob_dist st1 hdet1 ρ'.mag r1 (by rw [hst1v]; simpa using hρ'pos)
           (by rw [hst1v]; simpa using hr1pos), hst1v]
         simp only [Nat.cast_one, Nat.cast_zero, one_mul, add_zero]
         rw [div_le_iff₀ (mul_pos hρ'pos hr1pos)]
-        have e : u * x.mag * (ρ'.mag * r1) = u * ρ'.mag * (x.mag * r1) := by ring
-        have e2 : x.mag * r1 = 1 := by rw [hr1def]; field_simp [ne_of_gt h.mag_pos]
+        have e : u * y.mag * (ρ'.mag * r1) = u * ρ'.mag * (y.mag * r1) := by ring
+        have e2 : y.mag * r1 = 1 := by rw [hr1def]; field_simp [ne_of_gt hy.mag_pos]
         rw [e, e2, mul_one]; exact herr
       -- the remaining budget: pot(a1, 1) ≤ 2·x
       have ha1 : 1 ≤ ⌊r1⌋₊ := Nat.floor_pos.mpr hr1.le
       have ha1q : (1:ℚ) ≤ (⌊r1⌋₊ : ℚ) := by exact_mod_cast ha1
-      have hpot : pot ((stdStep st1 ⌊r1⌋₊).2.1 : ℚ) ((stdStep st1 ⌊r1⌋₊).2.2 : ℚ) ≤ 2 * x.mag := by
+      have hpot : pot ((stdStep st1 ⌊r1⌋₊).2.1 : ℚ) ((stdStep st1 ⌊r1⌋₊).2.2 : ℚ) ≤ 2 * y.mag := by
         rw [hst1v]
         simp only [stdStep, pot]
         push_cast
         simp only [mul_one, add_zero]
-        have hx1 : 1 / ((⌊r1⌋₊ : ℚ) + 1) ≤ x.mag := by
+        have hx1 : 1 / ((⌊r1⌋₊ : ℚ) + 1) ≤ y.mag := by
           rw [div_le_iff₀ (by linarith)]
-          have : x.mag * r1 = 1 := by rw [hr1def]; field_simp [ne_of_gt h.mag_pos]
-          have := mul_lt_mul_of_pos_left hr1hi h.mag_pos
+          have : y.mag * r1 = 1 := by rw [hr1def]; field_simp [ne_of_gt hy.mag_pos]
+          have := mul_lt_mul_of_pos_left hr1hi hy.mag_pos
           linarith
         have hx2 : 1 / ((⌊r1⌋₊ : ℚ) * ((⌊r1⌋₊ : ℚ) + 1)) ≤ 1 / ((⌊r1⌋₊ : ℚ) + 1) := by
           apply one_div_le_one_div_of_le (by linarith)
           have := mul_le_mul_of_nonneg_right ha1q (show (0:ℚ) ≤ (⌊r1⌋₊ : ℚ) + 1 by linarith)
           linarith
         linarith
-      have hxu := mag_mul_u_lt h
       have h3 : u * pot ((stdStep st1 ⌊r1⌋₊).2.1 : ℚ) ((stdStep st1 ⌊r1⌋₊).2.2 : ℚ)
-          ≤ u * (2 * x.mag) := mul_le_mul_of_nonneg_left hpot hupos.le
-      have e3 : u * x.mag = x.mag * u := mul_comm _ _
-      have e4 : u * (2 * x.mag) = 2 * (x.mag * u) := by ring
+          ≤ u * (2 * y.mag) := mul_le_mul_of_nonneg_left hpot hupos.le
+      have e3 : u * y.mag = y.mag * u := mul_comm _ _
+      have e4 : u * (2 * y.mag) = 2 * (y.mag * u) := by ring
       linarith
 
-/-- **C20, exactness of the convergents (strongest true form).**  With the stated bound on
-    `Q²·ulp(x)` and no overflow of the iterates (`Q ≤ 2^emax`), `as_fraction(n)` returns the
-    exact convergent `[a0; a1, …, a(n−1)]` of `|x|`, in lowest terms. -/
+/-- **C20, exactness of the convergents, with the no-overflow condition explicit**: with the
+    stated bound on `Q²·ulp(x)` and `Q ≤ 2^emax` in the working format, `as_fraction(n)`
+    returns the exact convergent `[a0; a1, …, a(n−1)]` of `|x|`, in lowest terms.
+    (`hrange` is redundant: `asFraction_exact`.) -/
 theorem asFraction_exact_partial (x : Flt) (n : Nat) (hF : x.sem.WF) (hx : x.cat = .normal)
     (hc : x.Canonical) (hrm : x.sem.rm = .nte) (hn : 1 ≤ n)
     (hterms : (cfTerms |x.val| (n + 2)).length = n + 2)
     (hQ : ((stdConv (cfTerms |x.val| (n + 2))).2 : ℚ) ^ 2 * x.sem.ulp x.exp ≤ (2:ℚ) ^ (-8 : Int))
-    (hrange : ((stdConv (cfTerms |x.val| (n + 2))).2 : ℚ) ≤ (2:ℚ) ^ x.sem.emax) :
+    (hrange : ((stdConv (cfTerms |x.val| (n + 2))).2 : ℚ) ≤ (2:ℚ) ^ (wideSem x.sem).emax) :
     x.asFraction n = stdConv (cfTerms |x.val| n) ∧
     Nat.Coprime (x.asFraction n).1 (x.asFraction n).2 ∧
     ((x.asFraction n).1 : ℚ) / ((x.asFraction n).2 : ℚ) = cfEval (cfTerms |x.val| n) :=
   asFraction_exact_of_quotients x n hx hn (quotients_exact x n hF hx hc hrm hn hterms hQ hrange)
 
-/-- in a format with `p ≤ emax + 10` (every IEEE interchange format: 11 ≤ 25, 24 ≤ 137,
-    53 ≤ 1033, 113 ≤ 16393, 237 ≤ 262153) the bound on `Q²·ulp(x)` already excludes overflow -/
+/-- the bound on `Q²·ulp(x)` (ulp in the operand's own format) excludes overflow in the working
+    format, whose exponent range satisfies `p + emax ≤ emax_wide` (`wide_emax_bound`) -/
 theorem den_le_pow_emax (x : Flt) (hF : x.sem.WF) (hx : x.cat = .normal) (hc : x.Canonical)
-    (hfmt : (x.sem.p : Int) ≤ x.sem.emax + 10) (Q : Nat)
-    (hQ : (Q : ℚ) ^ 2 * x.sem.ulp x.exp ≤ (2:ℚ) ^ (-8 : Int)) :
-    (Q : ℚ) ≤ (2:ℚ) ^ x.sem.emax := by
+    (Q : Nat) (hQ : (Q : ℚ) ^ 2 * x.sem.ulp x.exp ≤ (2:ℚ) ^ (-8 : Int)) :
+    (Q : ℚ) ≤ (2:ℚ) ^ (wideSem x.sem).emax := by
   obtain ⟨he1, -, -, -, -⟩ := (Flt.canonical_normal hx).mp hc
   have hmono := x.sem.ulp_mono he1
   have hQ0 : (0:ℚ) ≤ (Q:ℚ) := Nat.cast_nonneg _
@@ -200,33 +214,36 @@ theorem den_le_pow_emax (x : Flt) (hF : x.sem.WF) (hx : x.cat = .normal) (hc : x
     le_trans (mul_le_mul_of_nonneg_left hmono (by positivity)) hQ
   have hemin : x.sem.emin = 1 - x.sem.emax := by
     rw [Sem.emax_eq (by have := hF.1; omega), Sem.emin_eq]; ring
+  have hwide := wide_emax_bound hF
+  have hemax := Sem.emax_pos hF
   have h2 : (Q:ℚ) ^ 2 ≤ (2:ℚ) ^ (-8 : Int) / x.sem.ulp x.sem.emin := by
     rw [le_div_iff₀ hupos]; exact h1
-  have h3 : (2:ℚ) ^ (-8 : Int) / x.sem.ulp x.sem.emin ≤ ((2:ℚ) ^ x.sem.emax) ^ 2 := by
+  have h3 : (2:ℚ) ^ (-8 : Int) / x.sem.ulp x.sem.emin ≤ ((2:ℚ) ^ (wideSem x.sem).emax) ^ 2 := by
     rw [Sem.ulp_def, ← zpow_sub₀ (by norm_num : (2:ℚ) ≠ 0), ← zpow_natCast, ← zpow_mul]
     apply zpow_le_zpow_right₀ (by norm_num)
     rw [hemin]; push_cast; omega
-  have h4 : (Q:ℚ) ^ 2 ≤ ((2:ℚ) ^ x.sem.emax) ^ 2 := le_trans h2 h3
+  have h4 : (Q:ℚ) ^ 2 ≤ ((2:ℚ) ^ (wideSem x.sem).emax) ^ 2 := le_trans h2 h3
   exact (pow_le_pow_iff_left₀ hQ0 (by positivity) (by norm_num)).mp h4
 
-/-- **C20 for the usual formats** (`p ≤ emax + 10`): exactly the property as stated -/
+/-- **C20: `as_fraction(n)` returns the exact convergent** whenever the expansion of `|x|` has
+    `n + 2` terms and `Q²·ulp(x) ≤ 2^-8` — for every well-formed format, normal and subnormal
+    operands of either sign, nearest-even mode. -/
 theorem asFraction_exact (x : Flt) (n : Nat) (hF : x.sem.WF) (hx : x.cat = .normal)
     (hc : x.Canonical) (hrm : x.sem.rm = .nte) (hn : 1 ≤ n)
-    (hfmt : (x.sem.p : Int) ≤ x.sem.emax + 10)
     (hterms : (cfTerms |x.val| (n + 2)).length = n + 2)
     (hQ : ((stdConv (cfTerms |x.val| (n + 2))).2 : ℚ) ^ 2 * x.sem.ulp x.exp ≤ (2:ℚ) ^ (-8 : Int)) :
     x.asFraction n = stdConv (cfTerms |x.val| n) ∧
     Nat.Coprime (x.asFraction n).1 (x.asFraction n).2 ∧
     ((x.asFraction n).1 : ℚ) / ((x.asFraction n).2 : ℚ) = cfEval (cfTerms |x.val| n) :=
   asFraction_exact_partial x n hF hx hc hrm hn hterms hQ
-    (den_le_pow_emax x hF hx hc hfmt _ hQ)
+    (den_le_pow_emax x hF hx hc _ hQ)
 
 /-- `n = 0` behaves as `n = 1` -/
 theorem asFraction_exact_zero (x : Flt) (hF : x.sem.WF) (hx : x.cat = .normal) (hc : x.Canonical) :
     x.asFraction 0 = (⌊|x.val|⌋₊, 1) := by
   rw [asFraction_n0, asFraction_one_exact x hF hx hc]
 
-/-! ### the hypothesis `Q ≤ 2^emax` cannot be dropped -/
+/-! ### the case that failed before the repair -/
 
 /-- the format with 2 exponent bits and 16 significand bits (`emin = 0`, `emax = 1`, largest
     finite value just below 4) -/
@@ -235,25 +252,42 @@ def F2x16 : Sem := ⟨2, 16, .nte⟩
 /-- `x = 59753/32768 = 1.82351…  = [1; 1, 4, 1, 1, …]` -/
 def xCE : Flt := ⟨F2x16, false, 0, 59753, .normal⟩
 
-/-- **Counter-example to the property as stated (no restriction on the format).**
-    `x = 59753·2^-15` in the format `(e, p) = (2, 16)`, `n = 3`: the expansion
-    `[1; 1, 4, 1, 1]` has `n + 2` terms, `Q = 11`, `Q²·ulp = 121/32768 ≤ 1/256` — yet the third
-    iterate `1/0.2142… = 4.66…` overflows (`emax = 1`), the computed quotients are `[1, 1, 0]`
-    and the result is `1/1` instead of the exact convergent `9/5`. -/
+/-- Remark about the OLD code (loop in the operand's own format): here the expansion
+    `[1; 1, 4, 1, 1]` has `n + 2 = 5` terms, `Q = 11`, `Q²·ulp = 121/32768 ≤ 1/256`, yet the
+    third iterate `1/0.2142… = 4.66…` overflowed (`emax = 1`) and the result was `1/1`.  The
+    repaired model iterates in `wideSem F2x16` (7 exponent bits) and returns the exact
+    convergent `9/5`: by evaluation … -/
+example : xCE.asFraction 3 = (9, 5) := by decide +kernel
+
+/-- The former counter-example, kept under its name (it is listed as an obligation) with its
+    new content: the input lies in the stated domain (5 terms, `Q = 11`,
+    `Q²·ulp = 121/32768 ≤ 2^-8`), `Q` exceeds `2^emax` of the operand's OWN format (which is
+    why the old loop overflowed) — and the repaired model returns the exact convergent `9/5`. -/
 theorem asFraction_exact_counterexample :
     xCE.sem.WF ∧ xCE.cat = .normal ∧ xCE.Canonical ∧ xCE.sem.rm = .nte ∧
     (cfTerms |xCE.val| (3 + 2)).length = 3 + 2 ∧
     ((stdConv (cfTerms |xCE.val| (3 + 2))).2 : ℚ) ^ 2 * xCE.sem.ulp xCE.exp ≤ (2:ℚ) ^ (-8 : Int) ∧
-    xCE.asFraction 3 = (1, 1) ∧ stdConv (cfTerms |xCE.val| 3) = (9, 5) ∧
-    ¬ ((stdConv (cfTerms |xCE.val| (3 + 2))).2 : ℚ) ≤ (2:ℚ) ^ xCE.sem.emax := by
+    ¬ ((stdConv (cfTerms |xCE.val| (3 + 2))).2 : ℚ) ≤ (2:ℚ) ^ xCE.sem.emax ∧
+    stdConv (cfTerms |xCE.val| 3) = (9, 5) ∧ xCE.asFraction 3 = (9, 5) := by
   have hterms : cfTerms |xCE.val| (3 + 2) = [1, 1, 4, 1, 1] := by decide +kernel
   have h3 : cfTerms |xCE.val| 3 = [1, 1, 4] := by decide +kernel
-  refine ⟨by decide, rfl, by decide, rfl, by rw [hterms]; rfl, ?_, by decide +kernel,
-    by rw [h3]; decide, ?_⟩
+  refine ⟨by decide, rfl, by decide, rfl, by rw [hterms]; rfl, ?_, ?_, by rw [h3]; decide,
+    by decide +kernel⟩
   · rw [hterms, show stdConv [1, 1, 4, 1, 1] = (20, 11) by decide, Sem.ulp_def]
     norm_num [xCE, F2x16]
   · rw [hterms, show stdConv [1, 1, 4, 1, 1] = (20, 11) by decide]
     norm_num [xCE, F2x16, Sem.emax, Sem.bias]
+
+/-- … and as an instance of `asFraction_exact` -/
+example : xCE.asFraction 3 = (9, 5) := by
+  have hterms : cfTerms |xCE.val| (3 + 2) = [1, 1, 4, 1, 1] := by decide +kernel
+  have h3 : cfTerms |xCE.val| 3 = [1, 1, 4] := by decide +kernel
+  have h := asFraction_exact xCE 3 (by decide) rfl (by decide) rfl (by decide)
+    (by rw [hterms]; rfl)
+    (by rw [hterms, show stdConv [1, 1, 4, 1, 1] = (20, 11) by decide, Sem.ulp_def]
+        norm_num [xCE, F2x16])
+  rw [h3, show stdConv [1, 1, 4] = (9, 5) by decide] at h
+  exact h.1
 
 /-! ### a concrete instance: `π` in FP32, `n = 2` -/
 
@@ -264,7 +298,7 @@ example : piF32.asFraction 2 = (22, 7) ∧ Nat.Coprime 22 7 := by
   have hterms : cfTerms |piF32.val| (2 + 2) = [3, 7, 15, 1] := by decide +kernel
   have h2 : cfTerms |piF32.val| 2 = [3, 7] := by decide +kernel
   have h := asFraction_exact piF32 2 (by decide) rfl (by decide) rfl (by decide)
-    (by norm_num [piF32, FP32, Sem.emax, Sem.bias]) (by rw [hterms]; rfl)
+    (by rw [hterms]; rfl)
     (by rw [hterms, show stdConv [3, 7, 15, 1] = (355, 113) by decide, Sem.ulp_def]
         norm_num [piF32, FP32])
   rw [h2, show stdConv [3, 7] = (22, 7) by decide] at h
@@ -280,16 +314,13 @@ example : piF32.neg.asFraction 2 = (22, 7) := by
   have hterms : cfTerms |piF32.neg.val| (2 + 2) = [3, 7, 15, 1] := by decide +kernel
   have h2 : cfTerms |piF32.neg.val| 2 = [3, 7] := by decide +kernel
   have h := asFraction_exact piF32.neg 2 (by decide) rfl (by decide) rfl (by decide)
-    (by norm_num [piF32, Flt.neg, FP32, Sem.emax, Sem.bias]) (by rw [hterms]; rfl)
+    (by rw [hterms]; rfl)
     (by rw [hterms, show stdConv [3, 7, 15, 1] = (355, 113) by decide, Sem.ulp_def]
         norm_num [piF32, Flt.neg, FP32])
   rw [h2, show stdConv [3, 7] = (22, 7) by decide] at h
   exact h.1
 
--- REFUTED, NOT MERELY UNPROVED: the property text of C20 without a restriction on the format
--- (`asFraction_exact` without `hfmt`, i.e. `asFraction_exact_partial` without `hrange`) is
--- false: `asFraction_exact_counterexample`.  Everything else of the stated implication
--- ("the bound on Q²·ulp forces the true partial quotients", nearest-even mode, both signs,
--- normal and subnormal operands) is proved above.
+-- Nothing of C20 is left unproved for nearest-even mode: the stated implication holds for
+-- every well-formed format since `as_fraction` iterates in the working format `wideSem`.
 
 end Arp.C20
